@@ -326,13 +326,20 @@ Proof.
     apply Hfin; [cbn [Nat.add]; qlia|reflexivity].
 Qed.
 
-Lemma parse_request_print_d https dh l0 ds lb g extra host auth path query :
+Lemma request_uri_some https hostv target auth path query :
+  request_uri https hostv target = Some (auth, path, query) ->
+  no_host (usable_host hostv) target = false /\ uri_of https (usable_host hostv) target = Some (auth, path, query).
+Proof.
+  unfold request_uri. destruct (no_host (usable_host hostv) target); [discriminate|]. intros H. split; [reflexivity | exact H].
+Qed.
+
+Lemma parse_request_print_d https dh l0 ds lb g extra auth path query :
   greq_ok g = true -> decos_ok ds (g_headers g) = true ->
-  g_host dh g = Some host -> parse_uri https host (g_target g) = Some (auth, path, query) ->
+  request_uri https (g_host dh g) (g_target g) = Some (auth, path, query) ->
   parse_request https dh (print_head_d l0 ds lb g ++ extra) =
   Ok (mk_request (g_method g) path query (if g_v11 g then 11%N else 10%N) (g_hmap g) auth extra).
 Proof.
-  intros Hok Hdk Hhost Huri. pose proof (greq_ok_facts g Hok) as F.
+  intros Hok Hdk Huri. apply request_uri_some in Huri as [Hnh Huri]. pose proof (greq_ok_facts g Hok) as F.
   unfold parse_request. rewrite (req_loop_print_d l0 ds lb g extra F Hdk). cbn [obind].
   pose proof (method_ok_facts g F) as Hmok.
   destruct F as [Hmnon Hmlen Hmtok Htnon Htplain Hlines Hnodup].
@@ -342,13 +349,13 @@ Proof.
   assert (Htl : 0 < length (g_target g)) by (destruct (g_target g); [contradiction|cbn [length]; qlia]).
   destruct (Nat.leb (length (g_method g) + 1 + length (g_target g)) (length (g_method g) + 1)) eqn:E;
     [apply Nat.leb_le in E; qlia|].
-  unfold g_host in Hhost. rewrite Hhost.
+  unfold g_host in Hnh, Huri.
   assert (Ht : slice_chk (length (g_method g) + 1) (length (g_method g) + 1 + length (g_target g)) (print_head_d l0 ds lb g ++ extra) = Ok (g_target g)).
   { rewrite print_head_d_shape.
     change (g_method g ++ SP :: g_target g ++ ?x) with (g_method g ++ [SP] ++ g_target g ++ x).
     rewrite app_assoc. apply slice_chk_mid; [rewrite app_length; cbn [length]; qlia|reflexivity]. }
   rewrite Ht. cbn [obind].
-  rewrite Hmok. cbn [negb]. rewrite Huri, Hvcode.
+  rewrite Hnh, Hmok. cbn [negb]. rewrite Huri, Hvcode.
   rewrite (slice_chk_tail (print_head_d l0 ds lb g) extra (length (print_head_d l0 ds lb g)) eq_refl). cbn [obind]. reflexivity.
 Qed.
 
@@ -489,12 +496,12 @@ Lemma parse_print_ows_lemma : forall grow mode https dh max_len limit l0 ds lb g
   exists sv, serve grow mode https dh max_len limit (print_head_d l0 ds lb g ++ rest) sched = Ok sv /\ observed sv = Some e.
 Proof.
   intros grow mode https dh max_len limit l0 ds lb g rest sched e Hg Hp Hok Hdk Hmax Hex Hn1 Hn2.
-  destruct (expect_some _ _ _ _ _ _ Hex) as [host [auth [path [query [Hhost [Huri He]]]]]].
+  destruct (expect_some _ _ _ _ _ _ Hex) as [auth [path [query [Huri He]]]].
   pose proof (greq_ok_facts g Hok) as F. rewrite He.
   apply serve_printed; try assumption.
   - apply blank_end_print_d; assumption.
   - apply valid_start_print_d. exact F.
-  - intros extra. apply (parse_request_print_d https dh l0 ds lb g extra host auth path query Hok Hdk Hhost Huri).
+  - intros extra. apply (parse_request_print_d https dh l0 ds lb g extra auth path query Hok Hdk Huri).
 Qed.
 
 (** [print_head_e] and [print_head] are [print_head_d] without added whitespace *)
@@ -516,17 +523,17 @@ Qed.
 Lemma print_head_e_d l0 fl lb g : print_head_e l0 fl lb g = print_head_d l0 (map deco_of_lf fl) lb g.
 Proof. unfold print_head_e, print_head_d. rewrite print_hlines_e_d. reflexivity. Qed.
 
-Lemma parse_request_print_e https dh l0 fl lb g extra host auth path query :
-  greq_ok g = true -> g_host dh g = Some host -> parse_uri https host (g_target g) = Some (auth, path, query) ->
+Lemma parse_request_print_e https dh l0 fl lb g extra auth path query :
+  greq_ok g = true -> request_uri https (g_host dh g) (g_target g) = Some (auth, path, query) ->
   parse_request https dh (print_head_e l0 fl lb g ++ extra) =
   Ok (mk_request (g_method g) path query (if g_v11 g then 11%N else 10%N) (g_hmap g) auth extra).
 Proof.
-  intros Hok Hhost Huri. rewrite print_head_e_d.
-  apply (parse_request_print_d https dh l0 (map deco_of_lf fl) lb g extra host auth path query Hok (decos_ok_lf _ _) Hhost Huri).
+  intros Hok Huri. rewrite print_head_e_d.
+  apply (parse_request_print_d https dh l0 (map deco_of_lf fl) lb g extra auth path query Hok (decos_ok_lf _ _) Huri).
 Qed.
 
-Lemma parse_request_print https dh g extra host auth path query :
-  greq_ok g = true -> g_host dh g = Some host -> parse_uri https host (g_target g) = Some (auth, path, query) ->
+Lemma parse_request_print https dh g extra auth path query :
+  greq_ok g = true -> request_uri https (g_host dh g) (g_target g) = Some (auth, path, query) ->
   parse_request https dh (print_head g ++ extra) =
   Ok (mk_request (g_method g) path query (if g_v11 g then 11%N else 10%N) (g_hmap g) auth extra).
 Proof. rewrite <- print_head_e_crlf. apply parse_request_print_e. Qed.
